@@ -156,6 +156,10 @@ fn outcome_key(prog: &Prog, nthreads: usize, log: &[Ev]) -> String {
         let i = if k == "Z0" { 4 } else { 6 };
         lz.push(vec![st[i], st[i + 1]]);
     }
+    if st[8] > 0 {
+        // a thread-local was still accessible from its own destructor
+        return serde_json::json!({"regs": regs, "drops": drops, "stat": {"tl": tl, "lz": lz}, "tls_alive_in_drop": st[8]}).to_string();
+    }
     if tl.is_empty() && lz.is_empty() {
         serde_json::json!({"regs": regs, "drops": drops}).to_string()
     } else {
